@@ -37,6 +37,30 @@ CHECKS = {
     'C09': ('TLC-enumerated cases; deep identity+content snapshot of the argument before/after from_data; event validated by '
             'the TLC trace spec', 'Exhaustive within the grammar bound, both verdicts; the snapshot records the identity and '
             'contents of every container reachable from the argument.', 'section 7 C09'),
+    'C02': ('TLC-enumerated kind matrix (value kind x target kind x embedding context) replayed into from_data; verdict and '
+            'widening image decided by the TLC trace spec against PaneSem',
+            'Every cell of the matrix (16 atom payloads of 12 value kinds + containers incl. other-Sequence and proxy Mapping) x 41 '
+            'target kinds x 11 embedding contexts (thorough: context paths of length 2) is a TLC state and is executed; '
+            'must-reject cells and the three lossless widenings are judged by the three-valued kind matrix of PaneSem.',
+            'section 7 C02'),
+    'C04': ('TLC-enumerated adversarial universes (raising stdlib constructors, unhashable images, raising predicates/hooks, '
+            'odd tags) + catalogue of unsupported type expressions; escaping exception class decided by the TLC trace spec',
+            'Exhaustive over the exc/scalar/tagged/cond universes within their depth bound: every outcome must be ok or '
+            'ConvertError; building a converter (with no data in hand) for every generated documented type must succeed and '
+            'for 23 unsupported expressions must fail with TypeError/UnsupportedAnnotation.', 'section 7 C04'),
+    'C11': ('TLC-enumerated ordered pairs of overlapping member types (19 quick / 29 thorough members) x overlap values, '
+            'both directions; left-most-member law checked as TLC invariant on PaneSem and on the real code via trace validation',
+            'All ordered pairs of the member pool (thorough: additionally nested/flattened/Optional/container contexts); '
+            'from_data outcome must be the image of the left-most accepting member, into_data must be produced by some member.',
+            'section 7 C11'),
+    'C12': ('TLC-enumerated tagged-union universe (5 variant sets x 3 layouts x tag values of every kind x bodies of every '
+            'variant) replayed: verdict/image, tag named in the message, round trip, duplicate tags refused at build',
+            'Exhaustive within the universe; the variant is decided by TagExtract/TagVariant of PaneSem (tag alone), bodies '
+            'valid for another variant included; layout symmetry by SerOK + re-parse.', 'section 7 C12'),
+    'C13': ('TLC-enumerated condition expressions (stock conditions, combinators depth <= 2, several per annotation) x inner '
+            'types x boundary values; three-valued Holds (T/F/raises, Python short-circuit order) in PaneSem decides',
+            'Exhaustive within the universe: 15 base conditions, not/and/or combinations, nested expressions with equal names, '
+            'values at threshold-1/2, threshold, threshold+1/2, lengths 0..3, inf/nan/-0.0, raising predicates.', 'section 7 C13'),
 }
 
 NOT_YET = 'check not built yet (work in progress; see DESIGN.md section 12 build order)'
